@@ -45,7 +45,8 @@ func (r *streamReader) Receive(stream DRPCRemote_ReceiveStream) error {
 			}
 			target := envelope.Targets[msg.TargetIndex]
 			var sender *actor.PID
-			if len(envelope.Senders) > 0 {
+			// a negative sender index means "no sender".
+			if len(envelope.Senders) > 0 && msg.SenderIndex >= 0 {
 				sender = envelope.Senders[msg.SenderIndex]
 			}
 			r.remote.engine.SendLocal(target, payload, sender)
